@@ -135,6 +135,33 @@ def d1_pairing(ctx):
                 else:
                     ctx.holds(rule, key, 'the file list producer sorts with the same function on all paths', m.loc(st))
     ctx.floor('reader functions building Obs with a name list', n, 5)
+    # co-sorting: B = [b for _, b in sorted(zip(A, B))] permutes B by the order of A *as A is at that moment*; it pairs B with the
+    # sorted A only if A itself has not been reordered since the two lists were built in parallel
+    nco = 0
+    for mn in ('input.openQCD', 'input.misc', 'input.sfcf', 'input.hadrons'):
+        m = ctx.repo.mod(mn)
+        for q, f in m.functions():
+            if '.' in q:
+                continue
+            ro = reorder_statements(m, f)
+            for st in statements(f):
+                if not (isinstance(st, ast.Assign) and isinstance(st.targets[0], ast.Name) and isinstance(st.value, ast.ListComp)):
+                    continue
+                it = st.value.generators[0].iter
+                if not (isinstance(it, ast.Call) and call_name(it) == 'sorted' and it.args and isinstance(it.args[0], ast.Call) and call_name(it.args[0]) == 'zip' and len(it.args[0].args) == 2):
+                    continue
+                a_, b_ = it.args[0].args
+                if not (isinstance(a_, ast.Name) and isinstance(b_, ast.Name) and b_.id == st.targets[0].id):
+                    continue
+                nco += 1
+                before = [x for x in ro if x[0] == a_.id and x[2].lineno < st.lineno]
+                key = '%s.py:%s#co-sort[%s by %s]' % (mn.replace('.', '/'), q, b_.id, a_.id)
+                ctx.check(rule, key, not before, '%s is permuted by the order of %s before %s itself is sorted: element k of both lists still belongs together' % (b_.id, a_.id, a_.id),
+                          '%s is sorted (line %d) before it is used as the key that permutes %s: the permutation is the identity, %s keeps its old order while %s is reordered' % (
+                              a_.id, before[0][2].lineno if before else 0, b_.id, b_.id, a_.id), m.loc(st))
+                after = [x for x in ro if x[0] == a_.id and x[2].lineno > st.lineno]
+                ctx.check(rule, key + '-key-sorted-afterwards', bool(after), '%s is sorted afterwards by %s' % (a_.id, after[0][1] if after else ''), '%s is never sorted after the co-sort of %s: the samples are read in the old order' % (a_.id, b_.id), m.loc(st))
+    ctx.floor('co-sorted name lists', nco, 1)
     # sfcf: user supplied names are not sorted, derived names follow the sorted listing
     sf = ctx.repo.mod('input.sfcf')
     f = sf.func('read_sfcf_multi')
@@ -526,6 +553,7 @@ def run(ctx):
 
 
 SELFTEST = [
+    ('cosort-after-key-sorted', 'pyerrors/input/openQCD.py', "    names = [name for _, name in sorted(zip(files, names), key=lambda pair: pair[0])]\n    files = sorted(files)\n", "    files = sorted(files)\n    names = [name for _, name in sorted(zip(files, names), key=lambda pair: pair[0])]\n", 'C17-D1'),
     ('fix-reverted-rwms', 'pyerrors/input/openQCD.py', "        rep_names = names\n\n    print_err = 0", "        rep_names = names\n\n    rep_names = sort_names(rep_names)\n\n    print_err = 0", 'C17-D1'),
     ('fix-reverted-flow', 'pyerrors/input/openQCD.py', "        deltas.append(Q_top)\n\n    idl = [", "        deltas.append(Q_top)\n\n    rep_names = sort_names(rep_names)\n\n    idl = [", 'C17-D1'),
     ('fix-reverted-ms5', 'pyerrors/input/openQCD.py', "    names = [name for _, name in sorted(zip(files, names), key=lambda pair: pair[0])]\n", "    names = sorted(names)\n", 'C17-D1'),
